@@ -242,6 +242,12 @@ def r2_conversion(ctx, rep):
            "(key on its own line) yields a leading '' entry that is rejected for one of them", py.nloc(cs))
 
 
+def _names_option(fn, exc: ast.AST, params) -> bool:
+    """does the raised message interpolate the option name (a parameter of fn), in whatever string-building style?"""
+    ps = {a.arg for a in fn.args.args + fn.args.kwonlyargs} & set(params)
+    return any(isinstance(n, ast.Name) and n.id in ps for e in astq.expand_locals(exc, fn) for n in ast.walk(e))
+
+
 def r3_rejections_name_option(ctx, rep):
     py = ctx.py
     cs = py.func("settings.convert_setting")
@@ -256,17 +262,17 @@ def r3_rejections_name_option(ctx, rep):
                 if isinstance(p, ast.Try):
                     for h in p.handlers:
                         for r in ast.walk(h):
-                            if isinstance(r, ast.Raise) and re.search(r"\{(key|name)", ast.unparse(r)):
+                            if isinstance(r, ast.Raise) and r.exc is not None and _names_option(cs, r.exc, ("key", "name")):
                                 wrapped = True
             rep.ob(f"convert_setting {cn}() conversion", wrapped,
                    "ill-typed text is rejected with a message naming the option" if wrapped else
                    f"`{ast.unparse(c)}` raises a bare ValueError (\"invalid literal for int()\") that names neither "
                    f"the option nor the file", py.nloc(c))
     cb = py.func("settings.convert_to_bool")
-    ok = all("{name}" in ast.unparse(r) for r in ast.walk(cb) if isinstance(r, ast.Raise))
+    ok = all(_names_option(cb, r.exc, ("name", "key")) for r in ast.walk(cb) if isinstance(r, ast.Raise) and r.exc is not None)
     rep.ob("convert_to_bool messages name the option", ok, "", py.nloc(cb))
     pd = py.func("settings._parse_to_dict")
-    ok = all("{name" in ast.unparse(r) for r in ast.walk(pd) if isinstance(r, ast.Raise))
+    ok = all(_names_option(pd, r.exc, ("name", "key")) for r in ast.walk(pd) if isinstance(r, ast.Raise) and r.exc is not None)
     rep.ob("_parse_to_dict messages name the option", ok, "", py.nloc(pd))
     for q in ("settings.load_toml_settings", "settings.load_markdown_settings"):
         fn = py.func(q)
@@ -326,7 +332,10 @@ def r6_precedence(ctx, rep):
     ok = ast.unparse(merge[0].args[1]) == "command_line_args" if len(merge[0].args) > 1 else False
     rep.ob("CLI merge uses the parsed arguments", ok, "", py.nloc(merge[0]))
     cc = py.func("settings.convert_types_from_commandarguments")
-    ok = "if value is not None" in ast.unparse(cc)
+    cev = astq.trace(cc)
+    writes = [e for e in cev if (e.kind == "assign" and e.target and "[" in e.target) or
+              (e.kind == "call" and call_name(e.node) in ("setattr",))]
+    ok = bool(writes) and all(any(v is False for k, v in astq.implied_none_tests(e).items()) for e in writes)
     rep.ob("absent CLI options (None) do not override", ok, "", py.nloc(cc))
     # every store_true/store_false option defaults to None so that absence does not override
     for d, c in cli_dests(py).items():
